@@ -134,7 +134,9 @@ class SlliOp(RV64RdRsImmShiftOperation):
 
     def py_operation(self, rs1: IntegerAttr[I64]) -> IntegerAttr[I64]:
         assert isinstance(self.immediate, IntegerAttr)
-        return IntegerAttr(rs1.value.data << self.immediate.value.data, i64)
+        return IntegerAttr(
+            rs1.value.data << self.immediate.value.data, i64, truncate_bits=True
+        )
 
 
 @irdl_op_definition
@@ -171,7 +173,11 @@ class BclrIOp(RV64RdRsImmShiftOperation):
 
     def py_operation(self, rs1: IntegerAttr[I64]) -> IntegerAttr[I64]:
         assert isinstance(self.immediate, IntegerAttr)
-        return IntegerAttr(rs1.value.data & (~(1 << self.immediate.value.data)), i64)
+        return IntegerAttr(
+            rs1.value.data & (~(1 << self.immediate.value.data)),
+            i64,
+            truncate_bits=True,
+        )
 
 
 @irdl_op_definition
@@ -207,7 +213,11 @@ class BinvIOp(RV64RdRsImmShiftOperation):
 
     def py_operation(self, rs1: IntegerAttr[I64]) -> IntegerAttr[I64]:
         assert isinstance(self.immediate, IntegerAttr)
-        return IntegerAttr(rs1.value.data ^ (1 << self.immediate.value.data), i64)
+        return IntegerAttr(
+            rs1.value.data ^ (1 << self.immediate.value.data),
+            i64,
+            truncate_bits=True,
+        )
 
 
 @irdl_op_definition
